@@ -35,6 +35,18 @@ func (fs FailStops) Check(r *Run) {
 	}
 	ns := Names(fs.Callee...)
 	spec.FailCalls = append(append([]FailCall{}, spec.FailCalls...), FailCall{Callee: ns, Idx: fs.Idx, Outcome: fs.Fail, ArgOK: fs.ArgOK})
+	if fs.Fail == OErrNonNil {
+		// a helper of the package whose error is non-nil whenever the wrapped call fails stands for the call
+		if ws := FailWrappers(f, fs.Spec, FailCall{Callee: ns, Idx: fs.Idx, Outcome: fs.Fail, ArgOK: fs.ArgOK}); len(ws) > 0 {
+			wn := Names(ws...)
+			spec.FailCalls = append(spec.FailCalls, FailCall{Callee: wn, Idx: -1, Outcome: OErrNonNil})
+			all := Names(fs.Callee...)
+			for k := range wn {
+				all[k] = true
+			}
+			ns = all
+		}
+	}
 	fl := RunFlow(f, spec)
 	r.Stats.FlowRuns++
 	sites := 0
@@ -48,7 +60,7 @@ func (fs FailStops) Check(r *Run) {
 		}
 		hit := false
 		for _, call := range CallsIn(n.Ast) {
-			if ns.Has(Callee(fl.C.Info, call)) && (fs.ArgOK == nil || fs.ArgOK(fl.C, call)) {
+			if ns.HasCall(fl.C.Info, call) && (fs.ArgOK == nil || fs.ArgOK(fl.C, call)) {
 				hit = true
 			}
 		}
@@ -220,7 +232,7 @@ func (ca CallArgs) Check(r *Run) {
 		}
 		return true
 	}
-	ast.Inspect(f.Body(), visit)
+	InspectBody(f, visit)
 	if n < ca.Min {
 		r.Fail(fmt.Sprintf("%s calls of %s", f.Name, strings.Join(ca.Callee, "|")), r.W.Pos(f.Node().Pos()), fmt.Sprintf("expected ≥%d calls, found %d", ca.Min, n))
 	}
